@@ -1,6 +1,8 @@
 /* C02 harness (posix model): /repo/src/prwlock-posix.c with pthread_rwlock_* wrapped at link time
  * (-Wl,--wrap=...) so that every pthread call returns a scripted code.  The p_rwlock_* result is
  * compared with the mapping model (PV.RWLock.Posix).
+ *       free <code>        p_rwlock_free of a fresh object, pthread_rwlock_destroy returning <code>:
+ *                          `free pthread=destroy handle=own released=1`
  * ops:  call <op> <code>   script the next pthread return code, call p_rwlock_<op> (lock)
  *       null <op>          p_rwlock_<op> (NULL)
  *       new <code>         p_rwlock_new with pthread_rwlock_init returning <code>
@@ -21,7 +23,8 @@
 static size_t last_alloc_size;
 P_LIB_API ppointer p_malloc0 (psize n) { last_alloc_size = n; return calloc (1, n); }
 P_LIB_API ppointer p_malloc (psize n) { return malloc (n); }
-P_LIB_API void p_free (ppointer p) { free (p); }
+static const void *watch_ptr; static int watch_freed;
+P_LIB_API void p_free (ppointer p) { if (p != NULL && p == watch_ptr) watch_freed++; free (p); }
 
 static int next_code = 0;
 static const char *called = "none";
@@ -105,6 +108,23 @@ int main (void) {
 			fprintf (out, "new ret=%d\n", l2 != NULL);
 			next_code = 0;
 			if (l2) p_rwlock_free (l2);
+		} else if (!strcmp (a, "free") && n == 2) {
+			/* p_rwlock_free of a fresh object while pthread_rwlock_destroy returns the scripted code: destroy is
+			   called once, on the object's handle, and the object is released whatever destroy says */
+			PRWLock *l2;
+			next_code = 0;
+			l2 = p_rwlock_new ();
+			if (!l2) fprintf (out, "free !NEW-FAILED\n");
+			else {
+				size_t sz = last_alloc_size;
+				next_code = atoi (b); called = "none"; ncalls = 0; last_hdl = NULL;
+				watch_ptr = l2; watch_freed = 0;
+				p_rwlock_free (l2);
+				watch_ptr = NULL;
+				fprintf (out, "free pthread=%s handle=%s released=%d\n", ncalls == 1 ? called : (ncalls == 0 ? "none" : "many"),
+					 ((const char *) last_hdl >= (const char *) l2 && (const char *) last_hdl < (const char *) l2 + sz) ? "own" : "other", watch_freed);
+			}
+			next_code = 0;
 		} else if (!strcmp (a, "ident") && n == 1) { fprintf (out, "ident %s\n", do_ident (lock, lock_size)); next_code = 0;
 		} else if (!strcmp (a, "reset") && n == 1) fprintf (out, "ok\n");
 		else fprintf (out, "bad-op\n");
